@@ -222,6 +222,9 @@ def dw_uleb128(obj, data):
 @ispec("*>[ {fc} ~data(*) ]", mnemonic="table")
 def dw_table(obj, data):
     data = pack(data)
+    if len(data) == 0:
+        # the sub-opcode is missing
+        raise InstructionError(obj)
     v,blen = read_uleb128(data)
     obj.bytes += data[0:blen]
     obj.type = type_data_processing
@@ -232,6 +235,8 @@ def dw_table(obj, data):
         post = "f32" if v in (0,2,4,5) else "f64"
         su = "_s" if v%2==0 else "_u"
         obj.mnemonic = "trunc_sat_"+post+su
+        # saturating truncations have no immediate
+        return
     if v==10:
         obj.mnemonic = "memory"
         obj.action = "copy"
